@@ -121,6 +121,10 @@ def probes_for(ex, hist, mstates):
     # R8 non-aggregated non-grouping column in summarize
     P.append(["summarize", [["a", x]]])
     P.append(["summarize", [["a", ["add", x, ["sum", x]]]]])
+    P.append(["summarize", [["a", ["add", ["sum", x], x]]]])  # the plain column after the aggregate
+    P.append(["summarize", [["a", ["sub", ["max", x], Cn("k")]]]])
+    P.append(["summarize", [["a", ["case", [[["gt", ["max", x], lit(3)], k]], None]]]])
+    P.append(["summarize", [["a", ["hmin", ["min", x], k]]]])
     P.append(["summarize", [["a", ["case", [[b, ["sum", x]]], lit(0)]]]])
     P.append(["summarize", [["a", Cn("k")]]])
     # R9 unknown columns
